@@ -20,7 +20,8 @@ from efootprint.core.system import System  # noqa: E402
 ID = "C14"
 TECHNIQUE = "exhaustive enumeration of the (class, parameter, kind of invalid value, site) grid on a system containing every class, plus property-based sampling (Hypothesis) of the same cells on generated systems at generated positions of edit histories; oracle = an exception is raised and identity + value snapshots of the whole model are unchanged"
 LEVEL_TEXT = ("every class of the public class list x every constructor parameter x every kind of invalid value x "
-              "{construction, later assignment, inside a multi-change update next to a valid change}: the grid is "
+              "{construction, later assignment, inside a multi-change update next to a valid change of another object / after "
+              "a valid change of the same object / after a re-submitted unchanged value, in-place list operation}: the grid is "
               "enumerated completely on a reference system in both tiers; generated systems / histories are sampled")
 LEVEL_NOTE = "which values are 'invalid' follows the property text: wrong pint dimensionality, negative unless allowed, wrong type, wrong-class list element, value outside the allowed list"
 RULE = ("Grid (exhaustive): for each of the 18 public classes and each __init__ parameter: quantity parameters x {wrong "
